@@ -451,6 +451,21 @@ package client
 //@ spec slashed(p) := p != "" && p != "/" && p[len(p)-1] == '/'
 //@ loop 0 invariant calls(Q) == 2 && staticQueryParams == ret(Q,0,0) && staticQueryParams != nil && ret(Q,0,0) != ret(Q,1,0) && calls(UP) == 2 && calls(PJ) == 0 && calls(RA) == 0 && calls(PE) == 0 && calls(NRQ) == 0
 //@ loop 1 invariant calls(Q) == 2 && staticQueryParams == ret(Q,0,0) && staticQueryParams != nil && ret(Q,0,0) != ret(Q,1,0) && calls(UP) == 2 && calls(PJ) == 0 && calls(RA) == 0 && calls(PE) == 0 && calls(NRQ) == 0
+// pattern over base path: after the merge a name of the pattern's query has as many values as the pattern gives it (the base
+// path's are dropped first), every other name has what the base path gave it
+//@ spec pq() := ret(Q,1,0)
+//@ spec baseIn(k) := after(Q, 1, in(k, ret(Q,0,0)))
+//@ spec baseVal(k) := after(Q, 1, mapat(ret(Q,0,0), k))
+//@ spec merged(k) := (len(mapat(pq(), k)) > 0 ==> in(k, staticQueryParams) && len(mapat(staticQueryParams, k)) == len(mapat(pq(), k))) && (len(mapat(pq(), k)) == 0 ==> !in(k, staticQueryParams))
+//@ spec untouched(k) := (in(k, staticQueryParams) <==> baseIn(k)) && mapat(staticQueryParams, k) == baseVal(k)
+//@ loop 0 invariant [C10:patternwins] pq() != nil && 0 <= mappos && mappos <= mapcard && forall k string :: in(k, pq()) && mapidx(k) < mappos ==> merged(k)
+//@ loop 0 invariant [C10:basekept] forall k string :: !(in(k, pq()) && mapidx(k) < mappos) ==> untouched(k)
+//@ loop 1 invariant [C10:patternwins] pq() != nil && 0 < outer(mappos) && outer(mappos) <= outer(mapcard) && name == outer(mapkey(mappos-1)) && in(name, pq()) && values == mapat(pq(), name)
+//@ loop 1 invariant [C10:patternwins] (rangeindex == -1 ==> !in(name, staticQueryParams)) && (rangeindex >= 0 ==> in(name, staticQueryParams) && len(mapat(staticQueryParams, name)) == rangeindex + 1)
+//@ loop 1 invariant [C10:patternwins] forall k string :: k != name && in(k, pq()) && outer(mapidx(k)) < outer(mappos) - 1 ==> merged(k)
+//@ loop 1 invariant [C10:basekept] forall k string :: k != name && !(in(k, pq()) && outer(mapidx(k)) < outer(mappos) - 1) ==> untouched(k)
+//@ ensures [C10:patternwins] result1 == nil ==> forall k string :: before(PJ, in(k, pq()) ==> merged(k))
+//@ ensures [C10:basekept] result1 == nil ==> forall k string :: before(PJ, !in(k, pq()) ==> untouched(k))
 //@ loop 3 invariant calls(Q) == 2 && staticQueryParams == ret(Q,0,0) && staticQueryParams != nil && r.query != staticQueryParams && calls(NRQ) == 1 && calls(PJ) == 1 && calls(UP) == 2 && req == ret(NRQ,0,0) && req != nil
 //@ spec inCaller(k) := before(GQ, in(k, r.query))
 //@ spec callerVal(k) := before(GQ, mapat(r.query, k))
